@@ -168,10 +168,24 @@ def slack(e, env):
         return 5e-7 / max(1.0 - x * x + 1e-6, 1e-6)
     if e[0] == "NormalLogPdf":      # cancellation in (x - mu) / sigma when |x|, |mu| >> sigma
         mu, sigma, x = evaluate(e[1], env), evaluate(e[2], env), evaluate(e[3], env)
-        return normal_slack(mu, sigma, x)
+        sl = normal_slack(mu, sigma, x)
+        if e[3][0] == "Atanh":      # stored squashed action: float32 atanh(a) carries an error dx that is divided by sigma
+            sl += atanh_slack(mu, sigma, x)
+        return sl
     return 0.0
 
 
 def normal_slack(mu, sigma, x):
+    """float32 rounding of -(z^2)/2 - log(sigma): relative to the size of the two terms (x - mu is exact or rounded once, so no
+    conditioning term in 1/sigma: the bound must stay meaningful for sigma = e^-25 and e^5)"""
     z = abs(x - mu) / sigma
-    return 2.5e-7 * (abs(x) + abs(mu)) / sigma * (z + 1.0)
+    return 1e-6 * (0.5 * z * z + abs(math.log(sigma)) + 1.0)
+
+
+def atanh_slack(mu, sigma, x):
+    """x = atanh(a) evaluated in float32: dx ~ 2.5e-7 * (|x| + |a| / (1 - a^2)); effect on z^2/2 is |z| dx/sigma + (dx/sigma)^2 / 2.
+    (inherent: with sigma = e^-25 a re-evaluated squashed action is ill-conditioned, the bound then exceeds any defect)"""
+    a = math.tanh(x)
+    dx = 2.5e-7 * (abs(x) + abs(a) / max(1.0 - a * a, 1e-7))
+    z = abs(x - mu) / sigma
+    return z * dx / sigma + 0.5 * (dx / sigma) ** 2
